@@ -9,6 +9,10 @@
    MultiTypeMap.mro computes for key [k] over the handlers registered so far -- a parameter of every function
    below (another component says what it is; [chain_rk] at the end is the executable instance used by
    the runner and the witnesses).  Handlers are method labels; a table filled twice holds a label twice.
+   Every adaptation (adapt_function) creates a new function object: object ids are allocated from [s_next] and
+   each table remembers which objects were registered in it ([t_obj]); a rewritten body that reaches, through the
+   ___MAP global, a table in which its own code object is not registered is a foreign caller there (its continuation
+   keys miss and __missing__ answers with a fresh lookup).
 
    Faithful points that matter (all confirmed on /repo):
    * the generated entry point reads OVLD.map at call time, so the table in service is [s_map], replaced by an
@@ -26,7 +30,7 @@ Definition label := nat.
 Definition key := nat.
 Definition tid := nat.
 
-Inductive err := EConfig | ENoMethod | EAmbig.
+Inductive err := EConfig | ENoMethod | EAmbig | EInternal.   (* EInternal: KeyError escaping from __missing__ *)
 Inductive rank := ROne (h : label) | RAmb (hs : list label).
 Inductive body := BRet | BNext.                       (* returns | returns after delegating to call_next(same argument) *)
 Inductive dkind := DOk | DBadAnalysis | DBadAdapt.    (* valid | makes analyze_arguments raise | raises in adapt_function *)
@@ -54,8 +58,9 @@ End Assoc.
 Record table := { t_regs : list label;               (* registered handlers, in registration order *)
                   t_dict : list (ckey * label);      (* first-rank and continuation entries *)
                   t_errs : list (ckey * err);        (* remembered errors *)
-                  t_all : list (key * list label) }. (* candidate codes per resolved key *)
-Definition empty_table : table := {| t_regs := []; t_dict := []; t_errs := []; t_all := [] |}.
+                  t_all : list (key * list label);   (* candidate codes per resolved key *)
+                  t_obj : list (label * nat) }.      (* (label, object id) of every function registered here *)
+Definition empty_table : table := {| t_regs := []; t_dict := []; t_errs := []; t_all := []; t_obj := [] |}.
 
 Inductive entry := Boot | Generated.
 Record shared := { s_entry : entry;       (* code of the function returned by @ovld *)
@@ -63,10 +68,11 @@ Record shared := { s_entry : entry;       (* code of the function returned by @o
                    s_map : tid;           (* Ovld.map *)
                    s_cnmap : tid;         (* the ___MAP global of rewritten bodies *)
                    s_tables : list table; (* heap of MultiTypeMap objects *)
-                   s_defs : list label }. (* Ovld._defns, in order *)
+                   s_defs : list label;   (* Ovld._defns, in order *)
+                   s_next : nat }.        (* next function object id *)
 
 Definition init (defs : list label) : shared :=
-  {| s_entry := Boot; s_compiled := false; s_map := 0; s_cnmap := 0; s_tables := []; s_defs := defs |}.
+  {| s_entry := Boot; s_compiled := false; s_map := 0; s_cnmap := 0; s_tables := []; s_defs := defs; s_next := 1 |}.
 
 Definition tbl (s : shared) (t : tid) : table := nth t (s_tables s) empty_table.
 
@@ -79,14 +85,14 @@ Fixpoint set_nth {X} (n : nat) (x : X) (l : list X) : list X :=
 
 Definition set_tbl (s : shared) (t : tid) (T : table) : shared :=
   {| s_entry := s_entry s; s_compiled := s_compiled s; s_map := s_map s; s_cnmap := s_cnmap s;
-     s_tables := set_nth t T (s_tables s); s_defs := s_defs s |}.
+     s_tables := set_nth t T (s_tables s); s_defs := s_defs s; s_next := s_next s |}.
 
 Inductive wr := WDict (c : ckey) (h : label) | WErr (c : ckey) (e : err).
 
 Definition apply_wr (T : table) (w : wr) : table :=
   match w with
-  | WDict c h => {| t_regs := t_regs T; t_dict := aupd ckey_eqb c h (t_dict T); t_errs := t_errs T; t_all := t_all T |}
-  | WErr c e => {| t_regs := t_regs T; t_dict := t_dict T; t_errs := aupd ckey_eqb c e (t_errs T); t_all := t_all T |}
+  | WDict c h => {| t_regs := t_regs T; t_dict := aupd ckey_eqb c h (t_dict T); t_errs := t_errs T; t_all := t_all T; t_obj := t_obj T |}
+  | WErr c e => {| t_regs := t_regs T; t_dict := t_dict T; t_errs := aupd ckey_eqb c e (t_errs T); t_all := t_all T; t_obj := t_obj T |}
   end.
 
 (* the write loop of resolve: [c] is 0 for the first rank, then S (the handler of the previous rank) *)
@@ -107,7 +113,7 @@ Fixpoint handlers (rs : list rank) : list label :=
 Inductive op := OCall (k : key) | OReg (l : label) | OUnreg (l : label).
 Inductive after := ADispatch (k : key) | ADone.
 Inductive cstep := CPrep | CNewMap | CAnalyze | CSwap | CSnap
-                 | CAdapt (l : label) (rest : list label) | CReg (l : label) (rest : list label) | CFlag.
+                 | CAdapt (l : label) (rest : list label) | CReg (l : label) (o : nat) (rest : list label) | CFlag.
 Inductive result := RRet | RErr (e : err).
 
 Inductive pc :=
@@ -115,13 +121,13 @@ Inductive pc :=
   | PUpdate
   | PComp (c : cstep) (a : after)
   | PDispatch (k : key)
-  | PMro (t : tid) (k : key) (cl : nat)        (* cl = 0: plain lookup; S h: inside the call_next miss of caller h *)
-  | PWrite (t : tid) (k : key) (cl : nat) (started : bool) (ws : list wr)
-  | PAfter (t : tid) (k : key) (cl : nat)
-  | PRun (h : label) (k : key)
-  | PNext (h : label) (k : key)
-  | PN1 (t : tid) (h : label) (k : key)
-  | PN2 (t : tid) (h : label) (k : key)
+  | PMro (t : tid) (k : key) (cl : option (label * nat))   (* None: plain lookup; Some (h, o): inside the call_next miss of caller h (object o) *)
+  | PWrite (t : tid) (k : key) (cl : option (label * nat)) (started : bool) (ws : list wr)
+  | PAfter (t : tid) (k : key) (cl : option (label * nat))
+  | PRun (h : label) (o : nat) (k : key)       (* the function object o (method h) runs *)
+  | PNext (h : label) (o : nat) (k : key)
+  | PN1 (t : tid) (h : label) (o : nat) (k : key)
+  | PN2 (t : tid) (h : label) (o : nat) (k : key)
   | PDone (r : result).
 
 Record local := { l_pc : pc; l_trace : list label }.
@@ -136,6 +142,15 @@ Definition fill_next (rest : list label) (a : after) : pc :=
 
 Definition remove_label (l : label) (ds : list label) : list label := filter (fun d => negb (Nat.eqb d l)) ds.
 Definition mem (h : label) (hs : list label) : bool := existsb (Nat.eqb h) hs.
+(* is the function object o (method h) registered in table T?  which object does a lookup returning h yield? *)
+Definition registered (T : table) (h : label) (o : nat) : bool :=
+  existsb (fun p => Nat.eqb (fst p) h && Nat.eqb (snd p) o) (t_obj T).
+Fixpoint last_obj (h : label) (l : list (label * nat)) (d : nat) : nat :=
+  match l with
+  | [] => d
+  | (h', o) :: r => last_obj h r (if Nat.eqb h' h then o else d)
+  end.
+Definition oid_of (T : table) (h : label) : nat := last_obj h (t_obj T) 0.
 
 Section Machine.
   Variable chain : list label -> key -> list rank.
@@ -154,49 +169,50 @@ Section Machine.
         end
     | PStart (OReg d) =>                                   (* _register: self._defns[sig] = fn *)
         ({| s_entry := s_entry s; s_compiled := s_compiled s; s_map := s_map s; s_cnmap := s_cnmap s;
-            s_tables := s_tables s; s_defs := s_defs s ++ [d] |}, at_pc l PUpdate)
+            s_tables := s_tables s; s_defs := s_defs s ++ [d]; s_next := s_next s |}, at_pc l PUpdate)
     | PStart (OUnreg d) =>
         ({| s_entry := s_entry s; s_compiled := s_compiled s; s_map := s_map s; s_cnmap := s_cnmap s;
-            s_tables := s_tables s; s_defs := remove_label d (s_defs s) |}, at_pc l PUpdate)
+            s_tables := s_tables s; s_defs := remove_label d (s_defs s); s_next := s_next s |}, at_pc l PUpdate)
     | PUpdate =>                                           (* _update: if self._compiled: self.compile() *)
         if s_compiled s then (s, at_pc l (PComp CPrep ADone)) else (s, at_pc l (PDone RRet))
     | PComp CPrep a => (s, at_pc l (PComp CNewMap a))      (* lock mixins, name *)
     | PComp CNewMap a =>                                   (* self.map = MultiTypeMap(...) *)
         ({| s_entry := s_entry s; s_compiled := s_compiled s; s_map := length (s_tables s); s_cnmap := s_cnmap s;
-            s_tables := s_tables s ++ [empty_table]; s_defs := s_defs s |}, at_pc l (PComp CAnalyze a))
+            s_tables := s_tables s ++ [empty_table]; s_defs := s_defs s; s_next := s_next s |}, at_pc l (PComp CAnalyze a))
     | PComp CAnalyze a =>                                  (* analyze_arguments + generate_dispatch *)
         if existsb is_bad_analysis (s_defs s) then (s, at_pc l (PDone (RErr EConfig)))
         else (s, at_pc l (PComp CSwap a))
     | PComp CSwap a =>                                     (* self.dispatch.__code__ = ... *)
         ({| s_entry := Generated; s_compiled := s_compiled s; s_map := s_map s; s_cnmap := s_cnmap s;
-            s_tables := s_tables s; s_defs := s_defs s |}, at_pc l (PComp CSnap a))
+            s_tables := s_tables s; s_defs := s_defs s; s_next := s_next s |}, at_pc l (PComp CSnap a))
     | PComp CSnap a => (s, at_pc l (fill_next (s_defs s) a))   (* for key, fn in list(self.defns.items()) *)
-    | PComp (CAdapt d rest) a =>                           (* adapt_function *)
+    | PComp (CAdapt d rest) a =>                           (* adapt_function: a new function object *)
         if is_bad_adapt d then (s, at_pc l (PDone (RErr EConfig)))
-        else if m_recoded (meth d)
-        then ({| s_entry := s_entry s; s_compiled := s_compiled s; s_map := s_map s; s_cnmap := s_map s;
-                 s_tables := s_tables s; s_defs := s_defs s |}, at_pc l (PComp (CReg d rest) a))
-        else (s, at_pc l (PComp (CReg d rest) a))
-    | PComp (CReg d rest) a =>                             (* self.map.register(sig, fn): clear(); add *)
+        else ({| s_entry := s_entry s; s_compiled := s_compiled s; s_map := s_map s;
+                 s_cnmap := if m_recoded (meth d) then s_map s else s_cnmap s;
+                 s_tables := s_tables s; s_defs := s_defs s; s_next := S (s_next s) |},
+              at_pc l (PComp (CReg d (s_next s) rest) a))
+    | PComp (CReg d o rest) a =>                           (* self.map.register(sig, fn): clear(); add *)
         let t := s_map s in
         let T := tbl s t in
-        (set_tbl s t {| t_regs := t_regs T ++ [d]; t_dict := []; t_errs := []; t_all := [] |},
+        (set_tbl s t {| t_regs := t_regs T ++ [d]; t_dict := []; t_errs := []; t_all := []; t_obj := t_obj T ++ [(d, o)] |},
          at_pc l (fill_next rest a))
     | PComp CFlag a =>                                     (* self._compiled = True *)
         ({| s_entry := s_entry s; s_compiled := true; s_map := s_map s; s_cnmap := s_cnmap s;
-            s_tables := s_tables s; s_defs := s_defs s |},
+            s_tables := s_tables s; s_defs := s_defs s; s_next := s_next s |},
          at_pc l (match a with ADispatch k => PDispatch k | ADone => PDone RRet end))
     | PDispatch k =>                                       (* method = OVLD.map[(type(x),)] *)
         let t := s_map s in
-        match alookup ckey_eqb (0, k) (t_dict (tbl s t)) with
-        | Some h => (s, at_pc l (PRun h k))
-        | None => (s, at_pc l (PMro t k 0))
+        let T := tbl s t in
+        match alookup ckey_eqb (0, k) (t_dict T) with
+        | Some h => (s, at_pc l (PRun h (oid_of T h) k))
+        | None => (s, at_pc l (PMro t k None))
         end
     | PMro t k cl =>                                       (* resolve: results = self.mro(k)  [writes self.all[k]] *)
         let T := tbl s t in
         let rs := chain (t_regs T) k in
         let s' := set_tbl s t {| t_regs := t_regs T; t_dict := t_dict T; t_errs := t_errs T;
-                                 t_all := aupd Nat.eqb k (handlers rs) (t_all T) |} in
+                                 t_all := aupd Nat.eqb k (handlers rs) (t_all T); t_obj := t_obj T |} in
         match rs with
         | [] => (s', at_pc l (PDone (RErr ENoMethod)))
         | _ => (s', at_pc l (PWrite t k cl false (writes_from k 0 rs)))
@@ -209,43 +225,49 @@ Section Machine.
         | Some e => (s, at_pc l (PDone (RErr e)))
         | None =>
             match alookup ckey_eqb (0, k) (t_dict T) with
-            | Some h => (s, at_pc l (match cl with 0 => PRun h k | S c => PN2 t c k end))
+            | Some h => (s, at_pc l (match cl with None => PRun h (oid_of T h) k | Some (c, o) => PN2 t c o k end))
             | None => (s, at_pc l (PMro t k cl))
             end
         end
-    | PRun h k =>                                          (* the method body runs *)
+    | PRun h o k =>                                        (* the method body runs *)
         let l' := {| l_pc := l_pc l; l_trace := l_trace l ++ [h] |} in
         match m_body (meth h) with
         | BRet => (s, at_pc l' (PDone RRet))
-        | BNext => (s, at_pc l' (PNext h k))
+        | BNext => (s, at_pc l' (PNext h o k))
         end
-    | PNext h k =>                                         (* ___MAP[(___CODE, type(x))] *)
+    | PNext h o k =>                                       (* ___MAP[(___CODE, type(x))] *)
         let t := s_cnmap s in
-        match alookup ckey_eqb (S h, k) (t_dict (tbl s t)) with
-        | Some h2 => (s, at_pc l (PRun h2 k))
-        | None => (s, at_pc l (PN1 t h k))
-        end
-    | PN1 t h k =>                                         (* __missing__ (code, *k): self[real_tup] *)
-        match alookup ckey_eqb (0, k) (t_dict (tbl s t)) with
-        | Some _ => (s, at_pc l (PN2 t h k))
-        | None => (s, at_pc l (PMro t k (S h)))
-        end
-    | PN2 t h k =>
         let T := tbl s t in
-        let cands := match alookup Nat.eqb k (t_all T) with Some hs => hs | None => [] end in
-        if negb (mem h cands)
-        then match alookup ckey_eqb (0, k) (t_dict T) with
-             | Some h' => (s, at_pc l (PRun h' k))
-             | None => (s, at_pc l (PMro t k 0))
+        if registered T h o
+        then match alookup ckey_eqb (S h, k) (t_dict T) with
+             | Some h2 => (s, at_pc l (PRun h2 (oid_of T h2) k))
+             | None => (s, at_pc l (PN1 t h o k))
              end
-        else match alookup ckey_eqb (S h, k) (t_errs T) with
-             | Some e => (s, at_pc l (PDone (RErr e)))
-             | None =>
-                 match alookup ckey_eqb (S h, k) (t_dict T) with
-                 | Some h2 => (s, at_pc l (PRun h2 k))
-                 | None => (s, at_pc l (PDone (RErr ENoMethod)))
+        else (s, at_pc l (PN1 t h o k))                     (* a code object this table has never seen: no such key *)
+    | PN1 t h o k =>                                       (* __missing__ (code, *k): self[real_tup] *)
+        match alookup ckey_eqb (0, k) (t_dict (tbl s t)) with
+        | Some _ => (s, at_pc l (PN2 t h o k))
+        | None => (s, at_pc l (PMro t k (Some (h, o))))
+        end
+    | PN2 t h o k =>
+        let T := tbl s t in
+        match alookup Nat.eqb k (t_all T) with
+        | None => (s, at_pc l (PDone (RErr EInternal)))     (* self.all[real_tup] raises KeyError (cleared by a register) *)
+        | Some cands =>
+            if negb (mem h cands && registered T h o)      (* caller's code not among the candidates: fresh lookup *)
+            then match alookup ckey_eqb (0, k) (t_dict T) with
+                 | Some h' => (s, at_pc l (PRun h' (oid_of T h') k))
+                 | None => (s, at_pc l (PMro t k None))
                  end
-             end
+            else match alookup ckey_eqb (S h, k) (t_errs T) with
+                 | Some e => (s, at_pc l (PDone (RErr e)))
+                 | None =>
+                     match alookup ckey_eqb (S h, k) (t_dict T) with
+                     | Some h2 => (s, at_pc l (PRun h2 (oid_of T h2) k))
+                     | None => (s, at_pc l (PDone (RErr ENoMethod)))
+                     end
+                 end
+        end
     | PDone r => (s, l)
     end.
 
